@@ -30,6 +30,31 @@ let parse_row (toks : string list) : (n list * aval) list =
                    | Some v -> Some (bytes_of_hex (String.sub t 0 i), v) | None -> None)
       | None -> failwith ("bad cell " ^ t)) toks
 
+(* tree rows (harness/c14n.go): <col>=<val> | <col>={ cells } *)
+let rec parse_ncells (toks : string list) : (n list * anval) list * string list =
+  match toks with
+  | [] -> ([], [])
+  | "}" :: r -> ([], r)
+  | t :: r ->
+      (match String.index_opt t '=' with
+       | None -> failwith ("bad cell " ^ t)
+       | Some i ->
+           let name = bytes_of_hex (String.sub t 0 i) in
+           let v = String.sub t (i + 1) (String.length t - i - 1) in
+           if v = "{" then
+             let (m, r') = parse_ncells r in
+             let (cells, r'') = parse_ncells r' in
+             ((name, ANMap m) :: cells, r'')
+           else
+             let cell = (match parse_val v with Some x -> [ (name, ANLeaf x) ] | None -> []) in
+             let (cells, r') = parse_ncells r in
+             (cell @ cells, r'))
+
+let parse_nrow (toks : string list) : (n list * anval) list =
+  match parse_ncells toks with
+  | (cells, []) -> cells
+  | _ -> failwith "bad tree row"
+
 let parse_aexp (t : string) : aexp =
   match t.[0] with
   | 'c' -> AEField (bytes_of_hex (rest t)) | 'n' -> AENum (zs (rest t))
@@ -108,6 +133,27 @@ let tok_eq (a : string) (b : string) : bool =
             && float_of_string (rest a) = float_of_string (rest b))
 
 let show_oo = function Some o -> show_out o | None -> "x"
+
+let parse_mquery (cap : string) (itoks : string list) (wtoks : string list) : amquery =
+  let items = List.map parse_field (split_on "&" itoks) in
+  let (wcol, wan) = (match wtoks with
+      | [ c; "-" ] -> ((if c = "-" then None else Some (bytes_of_hex c)), None)
+      | c :: t :: ft ->
+          let tst = if t = "t" then AWTTrue else AWTGt (zs (rest t)) in
+          ((if c = "-" then None else Some (bytes_of_hex c)), Some (parse_field ft, tst))
+      | _ -> failwith "bad where") in
+  { mq_items = items; mq_wcol = wcol; mq_wan = wan; mq_cap = nat_of_int (int_of_string cap) }
+
+let show_mrow = function
+  | Some os -> String.concat "/" (List.map show_out os)
+  | None -> "x"
+
+let mrow_eq a b =
+  a = b || (let xs = String.split_on_char '/' a and ys = String.split_on_char '/' b in
+            List.length xs = List.length ys && List.for_all2 tok_eq xs ys)
+
+let has_prefix (v : string) (p : string) : bool =
+  String.length v >= String.length p && String.sub v 0 (String.length p) = p
 
 let handle (toks : string list) : string =
   match toks with
@@ -215,6 +261,70 @@ let handle (toks : string list) : string =
                    "diff masync model=" ^ String.concat " " amodel
                  else (match verdict with Some v -> v | None -> "ok nt")
            end
+       | _ -> "bad line")
+  | "N" :: cap :: "#" :: r ->
+      (* PARTITION BY paths into tree rows: the model resolves the paths the way the code does (suffix fallback);
+         the implementation's output is judged by the specification over that resolution (any disagreement is a
+         violation) and then by the declarative one - partition value = value at the path, NULL when the path
+         leads nowhere - whose only disagreement can be the known fallback deviation *)
+      (match split_on "#" r with
+       | [ itoks; wtoks; rtoks; stoks; atoks ] ->
+           let q = parse_mquery cap itoks wtoks in
+           let rows = List.map parse_nrow (split_on ";" rtoks) in
+           if not (an_nrows_ok q rows) then "bad line: a partition path ends at a map" else
+           let model = List.map show_mrow (an_nmsync q rows) in
+           let sched = List.concat (List.mapi (fun i _ -> if i mod 2 = 1 then [ASPush; ASPop; ASPop] else [ASPush]) rows) in
+           let amodel = List.map show_mrow (an_nmasync q sched rows) in
+           let nonx l = List.filter (fun t -> t <> "x") l in
+           if List.length stoks <> List.length rows then "chk length sync outputs"
+           else if not (List.length (nonx stoks) = List.length atoks && List.for_all2 mrow_eq (nonx stoks) atoks)
+           then "chk sync_async async=" ^ String.concat " " atoks
+           else begin
+             let judge fb =
+               let spec' = List.map show_mrow (an_nmspec fb false q rows) in
+               let rec cmp i a b = match a, b with
+                 | [], [] -> None
+                 | x :: a', y :: b' -> if mrow_eq x y then cmp (i + 1) a' b' else Some (i, x, y)
+                 | _ -> Some (-1, "", "") in
+               cmp 0 stoks spec' in
+             let verdict =
+               if an_nmwithin true q rows then
+                 (match judge true with
+                  | Some (i, x, y) ->
+                      if x = "x" || y = "x" then Some (Printf.sprintf "chk where_order row=%d impl=%s spec=%s" i x y)
+                      else Some (Printf.sprintf "chk seq_value row=%d impl=%s spec=%s" i x y)
+                  | None ->
+                      if an_nmwithin false q rows then
+                        (match judge false with
+                         | Some (i, x, y) -> Some (Printf.sprintf "chk partition_path_fallback row=%d impl=%s spec=%s" i x y)
+                         | None -> None)
+                      else None)
+               else None in
+             match verdict with
+             | Some v when not (has_prefix v "chk partition_path_fallback ") -> v
+             | _ ->
+                 if not (List.for_all2 mrow_eq stoks model) then
+                   "diff nquery model=" ^ String.concat " " model
+                 else if not (List.for_all2 mrow_eq model amodel) then
+                   "diff nasync model=" ^ String.concat " " amodel
+                 else (match verdict with Some v -> v | None -> "ok nt")
+           end
+       | _ -> "bad line")
+  | "P" :: n :: r ->
+      (* key level: the real partitionKey of one tree row vs the key of the values at the paths *)
+      let (keys, r') = take (int_of_string n) r in
+      (match split_on "#" r' with
+       | [ []; rtoks; [ key ] ] ->
+           let keys = List.map bytes_of_hex keys in
+           let row = parse_nrow rtoks in
+           if not (List.for_all (an_resolve_ok row) keys) then "bad line: a partition path ends at a map" else
+           let code = hex_of_bytes (an_npkey true keys row) in
+           let spec = hex_of_bytes (an_npkey false keys row) in
+           if key = code then
+             (if code = spec then "ok nt"
+              else Printf.sprintf "chk partition_path_fallback impl_key=%s spec_key=%s" key spec)
+           else if key = spec then "diff partition_path model=" ^ code
+           else Printf.sprintf "chk partition_path impl_key=%s spec_key=%s" key spec
        | _ -> "bad line")
   | ["J"; bx; by; eq] ->
       (* implementation-level: two float64 partition values share a key iff they are the same value *)
